@@ -752,10 +752,23 @@ def prepare(seed, tier):
         runner.log(out[-6000:])
         raise RuntimeError("C06: the no-alloc harness (/verif/harness/noalloc, minicbor without features) does not build: "
                            "/repo/minicbor does not compile without the `alloc` feature, or the toolchain is unavailable offline")
-    # self-check: the binary really runs the no-alloc skip ([_ ] inside a definite array is refused)
-    got = runner.run_lines(NOALLOC_BIN, ["dec skip 829fff00", "dec skip 819fff"])
-    if got != ["err message 2", "ok () 3"]:
-        raise RuntimeError(f"C06: hnoalloc does not behave like the no-alloc build of skip (feature unification?): {got}")
+    # self-check: the crate graph of the stand-alone harness really has minicbor WITHOUT features (no feature unification).  This is
+    # read off cargo's resolution, not off the behaviour of skip: a tree whose no-alloc skip has learnt to cross an indefinite
+    # container inside a definite one is allowed by the property and must be judged by the streams, not stop the check.
+    import json as _json
+    extra = [a for a in runner.cargo_extra_args(None) if a != "--target-dir"]
+    extra = [a for i, a in enumerate(extra) if not (i > 0 and extra[i - 1] == "--target-dir")] if "--target-dir" in runner.cargo_extra_args(None) else extra
+    rc, out = runner.sh(["cargo", "metadata", "--format-version", "1", "--offline"] + [a for a in extra if a.startswith("--config") or a.startswith("paths=")], cwd=NOALLOC_DIR, timeout=600)
+    feats = None
+    if rc == 0:
+        try:
+            md = _json.loads(out[out.index("{"):])
+            ids = {p["id"] for p in md["packages"] if p["name"] == "minicbor"}
+            feats = sorted({f for n in md["resolve"]["nodes"] if n["id"] in ids for f in n["features"]})
+        except (ValueError, KeyError):
+            feats = None
+    if feats is None or any(f in feats for f in ("alloc", "std")):
+        raise RuntimeError(f"C06: the stand-alone harness does not resolve minicbor without features (features: {feats}; cargo metadata rc={rc})")
 
 
 def streams(rng, tier):
